@@ -49,6 +49,10 @@ def cases(seed, tier):
             lays = TABLE_LAYOUTS if fam in ("recfile", "fields") else FLOAT_LAYOUTS
             for lay in lays:
                 out.append({"family": fam, "layout": lay, "sub": int(rng.integers(0, 2**31))})
+    for i in range(1 if tier == "quick" else 4):
+        # (thorough: the first of them has 10^7 + 1 elements, another 2^23 + 1000)
+        out.append({"family": "big", "layout": "native", "sub": int(rng.integers(0, 2**31)), "first": i <= 1,
+                    "cap": 2 ** 21 + 1 if tier == "quick" else (None if i != 1 else 2 ** 23 + 1000)})
     return out
 
 
@@ -681,7 +685,31 @@ def fam_htm(rng, layout, d, i):
           lambda: h.cylmatch(ra1, dec1, np.full(np.asarray(ra1).size, 0.1), ra2, dec2, np.full(np.asarray(ra2).size, 0.1), 0.1, 0.05))
 
 
-FAM = {"recfile": fam_recfile, "fields": fam_fields, "byteorder": fam_byteorder, "match": fam_match, "hist": fam_hist, "stats": fam_stats,
+def fam_big(rng, layout, d, i, case=None):
+    """native float64 arrays of one to ten million elements (the layout a size-gated 'no need to copy' path is written
+    for): the arguments must come back untouched"""
+    from esutil import coords, stat, htm, cosmology
+    n = gen.big_size(rng, cap=(case or {}).get("cap"), first=(case or {}).get("first", False))
+    ra, dec = rng.uniform(0, 360, size=n), np.degrees(np.arcsin(rng.uniform(-1, 1, size=n)))
+    ra2, dec2 = (ra + 1.0) % 360.0, np.clip(dec * 0.5, -90, 90)
+    opt = "n=2^%d" % int(np.log2(n))
+    guard("eq2sdss", {"ra": ra, "dec": dec}, lambda: coords.eq2sdss(ra, dec), opt)
+    lam, eta = coords.eq2sdss(ra.copy(), dec.copy())
+    guard("sdss2eq", {"clambda": lam, "ceta": eta}, lambda: coords.sdss2eq(lam, eta), opt)
+    guard("eq2gal", {"ra": ra, "dec": dec}, lambda: coords.eq2gal(ra, dec), opt)
+    guard("eq2xyz", {"ra": ra, "dec": dec}, lambda: coords.eq2xyz(ra, dec), opt)
+    guard("sphdist", {"ra1": ra, "dec1": dec, "ra2": ra2, "dec2": dec2}, lambda: coords.sphdist(ra, dec, ra2, dec2), opt)
+    guard("gcirc", {"ra1": ra, "dec1": dec, "ra2": ra2, "dec2": dec2}, lambda: coords.gcirc(ra, dec, ra2, dec2), opt)
+    guard("shiftlon", {"lon": ra}, lambda: coords.shiftlon(ra, shift=33.0), opt)
+    w = rng.uniform(0.1, 2, size=n)
+    guard("histogram", {"data": dec, "weights": w}, lambda: stat.histogram(dec, binsize=5.0, weights=w), opt)
+    guard("wmom", {"arr": dec, "weights": w}, lambda: stat.wmom(dec, w, sdev=True), opt)
+    guard("HTM.lookup_id", {"ra": ra, "dec": dec}, lambda: htm.HTM(8).lookup_id(ra, dec), opt)
+    z = np.abs(dec) / 30.0 + 0.01
+    guard("Cosmo.Da", {"zmax": z}, lambda: cosmology.Cosmo().Da(0.005, z), opt)
+
+
+FAM = {"big": fam_big, "recfile": fam_recfile, "fields": fam_fields, "byteorder": fam_byteorder, "match": fam_match, "hist": fam_hist, "stats": fam_stats,
        "coords": fam_coords, "wcs": fam_wcs, "cosmo": fam_cosmo, "htm": fam_htm}
 
 
@@ -689,6 +717,8 @@ def run_case(case):
     rng = np.random.default_rng(case["sub"])
     d = os.environ.get("VERIF_CASEDIR", ".")
     COL.sample({"family": case["family"], "layout": case["layout"]}, limit=8)
+    if case["family"] == "big":
+        return fam_big(rng, case["layout"], d, case["_i"], case)
     FAM[case["family"]](rng, case["layout"], d, case["_i"])
 
 
